@@ -278,15 +278,17 @@ Record req_head := {
   content_length : Z;           (* -2 | -1 | n *)
   cl_bytes : bytes;             (* contentLengthBytes *)
   conn_close : bool;
-  trailer : list bytes }.
+  trailer : list bytes;
+  raw_headers : bytes }.        (* h.rawHeaders = the block readRawHeaders delimited (RawHeaders()) *)
 
 Definition cookies_raw (h : req_head) : list bytes :=
   map snd (filter (fun kv => cic (fst kv) strCookie) (fields h)).
 
-Definition mk_req_head (l : req_line) (st : rqst) : req_head :=
+Definition mk_req_head (l : req_line) (st : rqst) (raw : bytes) : req_head :=
   {| meth := rl_method l; target := rl_uri l; proto := rl_proto l; http11 := negb (rl_noHTTP11 l);
      fields := q_hh st; host := q_host st; ctype := q_ct st; ua := q_ua st;
-     content_length := q_cl st; cl_bytes := q_clb st; conn_close := q_close st; trailer := q_trailer st |}.
+     content_length := q_cl st; cl_bytes := q_clb st; conn_close := q_close st; trailer := q_trailer st;
+     raw_headers := raw |}.
 
 (* RequestHeader.Host() *)
 Definition Host (cfg : hcfg) (h : req_head) : bytes :=
@@ -304,13 +306,13 @@ Definition req_parse_R (cfg : hcfg) (buf : bytes) : R (hres (req_head * nat)) :=
       do raw <- readRawHeaders rest;
       match raw with
       | None => Ok HNeedMore
-      | Some rawEnd =>
+      | Some (raw, rawEnd) =>
           do ph <- req_parseHeaders cfg (rl_noHTTP11 l) rest rawEnd;
           match ph with
           | PHNeedMore => Ok HNeedMore
           | PHErr e => Ok (HErr e)
           | PHOk st n =>
-              let hd := mk_req_head l st in
+              let hd := mk_req_head l st raw in
               if http11 hd && (length (Host cfg hd) =? 0) then Ok (HErr EHostRequired)
               else Ok (HOk (hd, m + n))
           end
@@ -381,3 +383,45 @@ Definition req_read (cfg : hcfg) (bsize : nat) (input : bytes) (final : peek_err
     | r => r
     end
   end.
+
+(* ---------- Read over a source that delivers its bytes in pieces ---------- *)
+(* bufio.Reader.Peek(n) over a source that yields at most k bytes per Read call (k = 0: everything it has) and
+   fails with [final] once exhausted ([final] <> PENil).  buf = bytes buffered and not yet discarded (the head
+   readers discard nothing before they succeed), src = bytes the source still holds.  Result: the new buf/src
+   and the error Peek returns. *)
+Fixpoint peek_fill (fuel n bsize k : nat) (buf src : bytes) : bytes * bytes * bool (* source exhausted *) :=
+  match fuel with
+  | O => (buf, src, false)
+  | S f =>
+      if (length buf <? n) && (length buf <? bsize) then
+        match src with
+        | [] => (buf, src, true)
+        | _ => let m := Nat.min (if k =? 0 then length src else k) (Nat.min (bsize - length buf) (length src)) in
+               peek_fill f n bsize k (buf ++ firstn m src) (skipn m src)
+        end
+      else (buf, src, false)
+  end.
+
+Definition peek (n bsize k : nat) (buf src : bytes) (final : peek_err) : bytes * bytes * peek_err :=
+  let '(buf', src', exhausted) := peek_fill (S (length src)) n bsize k buf src in
+  let perr := if bsize <? n then PEBufferFull
+              else if length buf' <? n then (if exhausted then final else PEBufferFull)
+              else PENil in
+  (buf', src', perr).
+
+(* the loop of RequestHeader.Read / ResponseHeader.Read around a tryRead function *)
+Fixpoint read_loop {A} (try : nat -> bytes -> peek_err -> try_res A)
+         (fuel n bsize k : nat) (buf src : bytes) (final : peek_err) : try_res A :=
+  match fuel with
+  | O => TBug
+  | S f =>
+      let '(buf', src', perr) := peek n bsize k buf src final in
+      match try n buf' perr with
+      | TNeedMore => read_loop try f (length buf' + 1) bsize k buf' src' final
+      | r => r
+      end
+  end.
+
+(* RequestHeader.Read over a bufio.Reader of size bsize on a source that yields input k bytes at a time *)
+Definition req_read_chunks (cfg : hcfg) (bsize k : nat) (input : bytes) (final : peek_err) : try_res req_head :=
+  read_loop (req_try_read cfg) (length input + 2) 1 bsize k [] input final.
